@@ -4,7 +4,7 @@ from __future__ import annotations
 
 from collections import deque
 
-from ..comp import CompScenario
+from ..comp import CompScenario, layout_from_spec, spec_leaves, spread, rand_leaf, rand_layout_spec
 from ..propbase import PropBase, make_plan, phase_at
 
 
@@ -13,13 +13,39 @@ class Scen(CompScenario):
         from transactron.lib import BasicFifo, FIFO
 
         c = self.cfg
-        layout = [(n, w) for n, w in c["layout"]]
-        self.fields = [n for n, _ in layout]
+        # the layout as the list form or as a StructLayout object (both are documented method layouts)
+        layout = layout_from_spec(c["layout"], bool(c.get("layout_obj")))
+        self.leafs = spec_leaves(c["layout"])  # (path, width, signed) of every scalar leaf; the first is the tag
+        self.fields = [path for path, _, _ in self.leafs]
+        self.mul = c.get("tagmul", 1)
         self.basic = c["cls"] == "BasicFifo"
+        self.fifo_made = None
         if self.basic:
             self.dut = BasicFifo(layout, c["depth"])
         else:
-            self.dut = FIFO(layout, c["depth"])
+            ft = c.get("fifo_type", "default")
+            if ft == "default":
+                self.dut = FIFO(layout, c["depth"])
+            else:
+                import amaranth.lib.fifo
+
+                if ft == "SyncFIFO":
+                    self.dut = FIFO(layout, c["depth"], amaranth.lib.fifo.SyncFIFO)
+                else:
+                    # a thin subclass of the default type that records its instantiation: same behaviour, so the
+                    # readiness clause applies unchanged; the documented parameter ("FIFO module conforming to
+                    # Amaranth library FIFO interface") says this is the type that gets instantiated
+                    made = self.fifo_made = []
+
+                    class RecordingSyncFIFO(amaranth.lib.fifo.SyncFIFO):
+                        def __init__(self, *, width, depth):
+                            super().__init__(width=width, depth=depth)
+                            made.append((width, depth))
+
+                    if ft == "recording_kw":
+                        self.dut = FIFO(layout, c["depth"], fifo_type=RecordingSyncFIFO)
+                    else:
+                        self.dut = FIFO(layout, c["depth"], RecordingSyncFIFO)
         self.top.add("dut", self.dut)
         self.caller("write", self.dut.write)
         self.caller("read", self.dut.read)
@@ -34,6 +60,19 @@ class Scen(CompScenario):
         self.tag = 0
         self.ports = ["write", "read"] + (["peek", "clear"] if self.basic else []) + (["peek2"] if self.basic and c.get("peek2") else [])
         return self.top
+
+    def post_elab(self, tm):
+        super().post_elab(tm)
+        if self.fifo_made is not None:
+            width = sum(w for _, w, _ in self.leafs)
+            self.expect(len(self.fifo_made) >= 1, "fifo-type-not-instantiated",
+                        "FIFO(layout, depth, fifo_type=<a subclass of SyncFIFO>) was elaborated without instantiating the "
+                        "given FIFO type", port="fifo_type")
+            self.hit("given_fifo_type_instantiated")
+            if self.fifo_made != [(width, self.cfg["depth"])]:  # how it is parametrised is not documented: counted
+                self.hit("given_fifo_type_instantiated_with_other_parameters")
+        elif self.cfg.get("fifo_type", "default") == "SyncFIFO":
+            self.hit("explicit_syncfifo_type")
 
     # ---- stimulus -------------------------------------------------------------------------
     def stimulus(self, rng, cyc):
@@ -58,12 +97,11 @@ class Scen(CompScenario):
             if pc > 0 and (len(self.q) in (0, self.cfg["depth"])):
                 pc_eff = min(1.0, pc * 2)
             stim["clear.en"] = int(rng.random() < pc_eff)
-        # unique tags in the first field, noise in the others
+        # unique tags in the first leaf, spread over its whole width (counter * odd constant modulo 2**width);
+        # noise in the others (full width, with all-zeros / all-ones / sign-bit-only patterns mixed in)
         self.tag += 1
-        for k, f in enumerate(self.fields):
-            name = f"write.i.{f}"
-            w = self.widths[name]
-            stim[name] = (self.tag if k == 0 else rng.getrandbits(w)) & ((1 << w) - 1)
+        for k, (f, w, sgn) in enumerate(self.leafs):
+            stim[f"write.i.{f}"] = spread(self.tag, self.mul, w, sgn) if k == 0 else rand_leaf(rng, w, sgn)
         return self.twin_stim(rng, stim)
 
     # ---- oracle -----------------------------------------------------------------------------
@@ -99,6 +137,7 @@ class Scen(CompScenario):
             if done.get(p):  # what an executed read / peek returned (the statement speaks of returned elements)
                 got = tuple(obs[f"{p}.o.{f}"] for f in self.fields)
                 self.expect(got == q[0], "data-mismatch", f"{p} returned {got}, head is {q[0]} (level {level})", port=p)
+                self.data_cov(got)
         # coverage / fault kinds that actually fired
         if stim.get("write.en") and not notfull:
             self.hit("write_refused_at_full")
@@ -137,6 +176,22 @@ class Scen(CompScenario):
     def wrap_pos(self):
         return getattr(self, "wr_count", 0) % self.cfg["depth"]
 
+    def data_cov(self, got):
+        """What kind of value came back intact."""
+        for (f, w, sgn), v in zip(self.leafs, got):
+            if w >= 10 and (v if v >= 0 else v + (1 << w)) >> 9:
+                self.hit("returned_value_with_bits_above_9")
+            if w > 32 and (v if v >= 0 else v + (1 << w)) >> 32:
+                self.hit("returned_value_with_bits_above_32")
+            if sgn and v < 0:
+                self.hit("returned_negative_signed_field")
+            if w == 1 and v:
+                self.hit("returned_one_bit_field_set")
+        if len(self.leafs) >= 3:
+            self.hit("returned_struct_of_3_or_more_leaves")
+        if any("." in f for f in self.fields):
+            self.hit("returned_nested_or_array_field")
+
 
 class Prop(PropBase):
     ID = "C14"
@@ -145,15 +200,23 @@ class Prop(PropBase):
         "thorough": {"runs": 6000, "selftest_runs": 32},
     }
     rule = ("one run = one (class, depth, layout) configuration driven for 80-400 cycles by a seeded phase plan "
-            "(random / fill / drain / ping-pong / flush / idle); distinct = distinct (configuration, queue level, "
+            "(random / fill / drain / ping-pong / flush / idle); layouts: the tag alone or tag + small aux field, or (55 %) wide "
+            "(up to 64 bit) / signed / 1-bit / 3-4-field / nested-struct / array fields, given as a list or as a StructLayout "
+            "object; the tag is counter * per-run odd constant modulo 2**width (unique, all bits used); FIFO with the default "
+            "fifo_type, with SyncFIFO passed explicitly, or with a recording subclass of SyncFIFO; distinct = distinct (configuration, queue level, "
             "write pointer mod depth, executed call set); non-trivial = a call executed at level 0, 1, depth-1 or "
             "depth, or clear ran")
     expected_cov = ["write_refused_at_full", "read_refused_at_empty", "read_and_write_same_cycle", "clear_with_write",
-                    "clear_with_read", "clear_at_full", "wrapped_around", "became_full", "became_empty", "two_peek_callers_served"]
+                    "clear_with_read", "clear_at_full", "wrapped_around", "became_full", "became_empty", "two_peek_callers_served",
+                    "returned_value_with_bits_above_9", "returned_value_with_bits_above_32", "returned_negative_signed_field",
+                    "returned_one_bit_field_set", "returned_struct_of_3_or_more_leaves", "returned_nested_or_array_field",
+                    "given_fifo_type_instantiated", "explicit_syncfifo_type"]
     real = ["transactron.lib.fifo.BasicFifo", "transactron.lib.connectors.FIFO", "transactron.lib.allocators.CircularAllocator",
             "transactron.lib.adapters.AdapterTrans", "TransactionManager + scheduler", "amaranth.lib.fifo.SyncFIFO", "amaranth pysim"]
-    stubs = ["cycle driver (stimulus)", "deque reference model"]
-    search_space = "FIFO configurations and read/peek/write/clear call histories with flush and boundary faults"
+    stubs = ["cycle driver (stimulus)", "deque reference model",
+             "RecordingSyncFIFO (subclass of amaranth.lib.fifo.SyncFIFO that only records its instantiation; passed as fifo_type)"]
+    search_space = ("FIFO configurations (depths, narrow / wide / signed / nested layouts, fifo_type) and read/peek/write/clear "
+                    "call histories with flush and boundary faults")
     assumptions = ["fullness / emptiness are judged on the queue level at the beginning of the cycle (a read does not make "
                    "room for a write of the same cycle, a write does not feed a read of the same cycle); of the calls "
                    "executed in one cycle `clear` is applied last"]
@@ -164,22 +227,27 @@ class Prop(PropBase):
         depth = rng.choice([1, 2, 3, 4, 5, 6, 7, 8, 9] + ([12, 16, 17] if big else []))
         if cls == "BasicFifo" and depth == 1 and rng.random() < 0.5:
             depth = 2
-        layout = [["tag", rng.choice([10, 12, 16])]]
-        if rng.random() < 0.4:
-            layout.append(["aux", rng.choice([1, 3, 8])])
+        layout = rand_layout_spec(rng, rich=rng.random() < 0.55)
         cycles = rng.randint(80, 400 if big else 220)
         kinds = ["random", "fill", "drain", "pingpong", "idle"] + (["flush", "flush"] if cls == "BasicFifo" else [])
-        return {"cls": cls, "depth": depth, "layout": layout, "cycles": cycles, "peek2": int(cls == "BasicFifo" and rng.random() < 0.4), "twin": int(rng.random() < 0.3),
-                "sched": rng.choice(["eager", "eager", "rr"]), "plan": make_plan(rng, cycles, kinds)}
+        cfg = {"cls": cls, "depth": depth, "layout": layout, "cycles": cycles, "peek2": int(cls == "BasicFifo" and rng.random() < 0.4), "twin": int(rng.random() < 0.3),
+               "sched": rng.choice(["eager", "eager", "rr"]), "plan": make_plan(rng, cycles, kinds)}
+        # drawn last, so that the older keys of a run keep their values
+        cfg["tagmul"] = rng.getrandbits(64) | 1  # tag = counter * odd constant modulo 2**width: unique, all bits used
+        cfg["layout_obj"] = int(rng.random() < 0.25)
+        if cls == "FIFO":
+            cfg["fifo_type"] = rng.choice(["default", "default", "SyncFIFO", "recording", "recording_kw"])
+        return cfg
 
     def make(self, cfg):
         return Scen(cfg)
 
     def features(self, cfg, viol):
-        return {"cls": cfg["cls"], "port": (viol.get("info") or {}).get("port")}
+        return {"cls": cfg["cls"], "port": (viol.get("info") or {}).get("port"), "fifo_type": cfg.get("fifo_type", "default")}
 
     def cfg_signature(self, cfg):
-        return [cfg["cls"], cfg["depth"], cfg["layout"], cfg["sched"], cfg.get("peek2", 0), cfg.get("twin", 0)]
+        return [cfg["cls"], cfg["depth"], cfg["layout"], cfg["sched"], cfg.get("peek2", 0), cfg.get("twin", 0),
+                cfg.get("layout_obj", 0), cfg.get("fifo_type", "default")]
 
     def shrink_cfg(self, cfg):
         if cfg["depth"] > 1:
@@ -191,6 +259,10 @@ class Prop(PropBase):
         if len(cfg["layout"]) > 1:
             c = dict(cfg)
             c["layout"] = cfg["layout"][:1]
+            yield c
+        if cfg.get("layout_obj"):
+            c = dict(cfg)
+            c["layout_obj"] = 0
             yield c
         if cfg["sched"] != "eager":
             c = dict(cfg)
